@@ -174,6 +174,9 @@ def worker(job):
                 if len(rq.raw) > LIMIT:
                     bad("oversize_sent", "datagram of %d octets exceeds the %d-octet buffer" % (len(rq.raw), LIMIT), {"target": target})
                 res["sizes_seen"].append(len(rq.raw))
+        if len(res.setdefault("samples", [])) < 3 and (target in (4080, 4081, 4079) or res["requests"] % 300 == 1):
+            res["samples"].append({"cfg": cfg.key(), "target_reference_size": target, "oids": len(oids), "outcome": repr(out)[:80],
+                                   "datagram_octets": len(reqs[0].raw) if reqs else None})
         if failed_clean:
             # the call after a failure must be normal
             box["reqs"] = []
@@ -368,6 +371,8 @@ def main():
                 s[k] += res.get(k, 0)
             for z in res.get("sizes_seen", []):
                 chk.distinct.add("size:%d" % z)
+            for x in res.get("samples", [])[:1]:
+                chk.sample(x, limit=6)
             for b in res["bad"]:
                 chk.violation("%s:%s" % (b["sig"], c_sig(b["cfgkey"])), "[%s %s] %s" % (variant, b["cfgkey"], b["msg"]), {"variant": variant, **b})
         stats[variant] = s
@@ -375,8 +380,6 @@ def main():
     chk.extra["rig_p"] = stats
     chk.floor("size_sweep_requests", sum(s["requests"] for s in stats.values()), 3000)
     chk.floor("refused_requests", sum(s["refused"] for s in stats.values()), 100)
-    chk.sample({"target_size": 4080, "cfg": "v2c", "oids": "166 OIDs of 14 content octets + one of 9", "outcome": "sent, 4080 octets, strict-equal"})
-    chk.sample({"target_size": 4081, "cfg": "v2c", "outcome": "SnmpEncodeError, no datagram; next request normal"})
     sys.exit(chk.finish())
 
 
